@@ -79,6 +79,16 @@ def ent_words(line):
                 out.append('E%s=%s' % (f[0][1:], ';'.join(items)))
     return out
 
+def notation_words(line):
+    """N words for the spec driver (ops TS / TSI on the read-only notations map, Spec/DomL1ReadOnly.v): the names in
+    notations() of every document type, from the T words of record 0"""
+    out = []
+    for w in D.init_desc(line).split(' '):
+        if w.startswith('T') and ':' in w:
+            k, _, v = w.partition(':')
+            out.append('N%s=%s' % (k[1:], v))
+    return out
+
 def norm_result(res):
     """implementation result class in the vocabulary of the spec driver"""
     if res in ('err:info', 'err:parse'):
@@ -327,7 +337,7 @@ def analyse(cases, lines, tag, summary, c15=True):
             summary['crashes'].append({'docs': docs, 'ops': [list(o) for o in ops], 'line': line[:200]})
             continue
         txt = line.split(' | ')
-        ew = ent_words(line)
+        ew = ent_words(line) + notation_words(line)
         prev = None
         for i, t in enumerate(txt):
             rec = Rec2(t)
@@ -539,7 +549,7 @@ def classify15(f):
 def source_hash():
     h = hashlib.sha256()
     for f in ('checks/dom13.py', 'checks/domlib.py', 'harness/src/domains/dom.rs', 'ocaml/specdomains/dom/dom.ml', 'coq/theories/Spec/DomL1.v',
-              'coq/theories/Spec/DomCharData.v', 'coq/theories/Spec/XmlChars.v'):
+              'coq/theories/Spec/DomCharData.v', 'coq/theories/Spec/XmlChars.v', 'coq/theories/Spec/DomL1ReadOnly.v'):
         try: h.update(open(os.path.join(lib.VERIF, f), 'rb').read())
         except OSError: pass
     return h.hexdigest()[:12]
@@ -626,6 +636,16 @@ def campaign(run):
     for d, o, v in NH[:1] + NH[-1:]:
         s['samples'].append({'kind': 'normalize history', 'documents': d, 'view': v, 'ops': [D.show_op(x) for x in o]})
     s['times']['normalize'] = round(time.time() - t0, 1); t0 = time.time()
+    # histories with calls on the read-only maps of a document type (generator of checks/domlib.py, own random stream; both views):
+    # every call is compared with dom_step_ro of the extracted Spec/DomL1ReadOnly.v (result class NO_MODIFICATION_ALLOWED_ERR /
+    # not offered, state unchanged), and the atomicity / panic oracles apply as to every call
+    RH, rhist = D.readonly_histories(random.Random('readonly13-%d' % run.seed), 1200 if thorough else 220, 24)
+    for k, v in rhist.items(): s['hist'][k] = s['hist'].get(k, 0) + v
+    for k in range(0, len(RH), 1000):
+        analyse(RH[k:k + 1000], run_ext(RH[k:k + 1000]), 'readonly', s)
+    for d, o, v in RH[:1] + RH[-1:]:
+        s['samples'].append({'kind': 'history with calls on the read-only maps of a document type', 'documents': d, 'view': v, 'ops': [D.show_op(x) for x in o]})
+    s['times']['readonly'] = round(time.time() - t0, 1); t0 = time.time()
     H, hist = histories15(rng, 6000 if thorough else 500, 30)
     for k, v in hist.items(): s['hist'][k] = s['hist'].get(k, 0) + v
     for k in range(0, len(H), 1000):
